@@ -85,7 +85,7 @@ func checkSer(R *vlib.Out, prop string, t *tmpl, hp, bp, tp []*pop) {
 			return
 		}
 		bl, cs := framingVals(out)
-		R.Class(typedKey(t.Body) + "/" + popKey(bp) + "/" + popKey(hp) + popKey(tp) + "/" + lenClass(atoiSafe(bl)) + "/" + sumClass(cs))
+		R.ClassD(unitKey(t) + typedKey(t.Body) + "/" + popKey(bp) + "/" + popKey(hp) + popKey(tp) + "/" + lenClass(atoiSafe(bl)) + "/" + sumClass(cs))
 		R.Outcome("len" + lenClass(atoiSafe(bl)) + " sum" + sumClass(cs))
 		R.Sample(4, map[string]string{"template": describe(t), "bytes": vlib.Show(out)})
 	case "C17":
@@ -107,7 +107,7 @@ func checkSer(R *vlib.Out, prop string, t *tmpl, hp, bp, tp []*pop) {
 			R.Violate(sig, fmt.Sprintf("wire=%s expected-fields=%s %s", vlib.Show(out), fieldsStr(exp), describe(t)), rp)
 			return
 		}
-		R.Class(typedKey(t.Body) + "/" + popKey(bp) + "/" + popKey(hp) + popKey(tp) + "/" + routeKey(hp, bp, tp))
+		R.ClassD(unitKey(t) + typedKey(t.Body) + "/" + popKey(bp) + "/" + popKey(hp) + popKey(tp) + "/" + routeKey(hp, bp, tp))
 		R.Outcome(fmt.Sprintf("fields=%d", len(got)))
 		R.Sample(4, map[string]string{"template": describe(t), "bytes": vlib.Show(out), "expected_fields": fieldsStr(exp)})
 	case "C02":
@@ -155,15 +155,20 @@ func routeKey(pss ...[]*pop) string {
 }
 
 // c17sig reduces a field-list mismatch to a signature naming the input class that fails.
+// The rest of the message is judged modulo a *known* loss, so a known cause never masks a new one.
 func c17sig(t *tmpl, hp, bp, tp []*pop, got, exp, expNoTrl []field) string {
-	// which populated leaves are missing, by (route, type, message part)
-	var miss []string
-	for part, pr := range []struct {
+	if len(exp) > len(expNoTrl) && fieldsStr(got) == fieldsStr(expNoTrl) {
+		return "trailer-field-dropped"
+	}
+	parts := []struct {
 		f  []*node
 		ps []*pop
 		nm string
-	}{{t.Hdr, hp, "header"}, {t.Body, bp, "body"}, {t.Trl, tp, "trailer"}} {
-		_ = part
+	}{{t.Hdr, hp, "header"}, {t.Body, bp, "body"}, {t.Trl, tp, "trailer"}}
+	for _, pr := range parts {
+		if pr.nm == "trailer" && vlib.Known("trailer-field-dropped") {
+			continue
+		}
 		var ls []leafRef
 		setLeaves(pr.f, pr.ps, &ls)
 		for _, l := range ls {
@@ -175,30 +180,17 @@ func c17sig(t *tmpl, hp, bp, tp []*pop, got, exp, expNoTrl []field) string {
 			}
 			if !found {
 				if pr.nm == "trailer" {
-					miss = append(miss, "trailer-field-dropped")
-				} else if l.p.Route == 'c' && (l.n.Typ == "Uint" || l.n.Typ == "Float") {
-					miss = append(miss, "ctor-null:"+l.n.Typ)
-				} else {
-					miss = append(miss, fmt.Sprintf("field-missing:%s/%c/%s", l.n.Typ, l.p.Route, pr.nm))
+					return "trailer-field-dropped"
 				}
+				if l.p.Route == 'c' && (l.n.Typ == "Uint" || l.n.Typ == "Float") {
+					return "ctor-null:" + l.n.Typ
+				}
+				return fmt.Sprintf("field-missing:%s/%c/%s", l.n.Typ, l.p.Route, pr.nm)
 			}
 		}
 	}
-	if len(miss) > 0 {
-		// name the first cause not yet known, so that a known cause never masks a new one
-		for _, m := range miss {
-			if !vlib.Known(m) {
-				return m
-			}
-		}
-		// all missing leaves are explained by known causes; anything else wrong?
-		if len(got)+len(miss) == len(exp) && emptySegmentFree(got) {
-			return miss[0]
-		}
-		if !emptySegmentFree(got) {
-			return "empty-segment-after-" + miss[0]
-		}
-		return miss[0]
+	if !emptySegmentFree(got) {
+		return "empty-field-or-segment"
 	}
 	if len(got) > len(exp) {
 		return "extra-field"
@@ -387,7 +379,7 @@ func checkRoundTrip(R *vlib.Out, t *tmpl, hp, bp, tp []*pop, out []byte, rp serR
 			return
 		}
 	}
-	R.Class(typedKey(t.Body) + "/" + popKey(bp) + "/" + popKey(hp) + popKey(tp) + "/" + valKey(hp, bp, tp, t))
+	R.ClassD(unitKey(t) + typedKey(t.Body) + "/" + popKey(bp) + "/" + popKey(hp) + popKey(tp) + "/" + valKey(hp, bp, tp, t))
 	R.Outcome(fmt.Sprintf("roundtrip-ok fields=%d", len(fs)))
 	R.Sample(4, map[string]string{"template": describe(t), "bytes": vlib.Show(out)})
 }
@@ -528,3 +520,7 @@ func touchesDupTags(t *tmpl, hp, bp, tp []*pop) bool {
 	}
 	return false
 }
+
+// unitKey identifies the work unit a template belongs to (work units are partitioned among shards,
+// so class keys that contain it are shard-disjoint).
+func unitKey(t *tmpl) string { return fmt.Sprintf("u%d/%s/", t.Unit, t.Gen) }
